@@ -61,7 +61,7 @@ func init() {
 		Run:   runR105,
 	})
 	core.Register(&core.Rule{
-		ID: "R10.6", Generated: true,
+		ID: "R10.6", Generated: true, GeneratedRoot: true,
 		Title: "generated Equals is symmetric in shape",
 		Text:  "In every generated Equals, after the identity / nil guards on the two operands, no comparison is nested under a condition that mentions only the receiver's (or only the other's) fields: such a guard makes a.Equals(b) and b.Equals(a) differ.",
 		Props: []string{"C10"},
